@@ -2142,6 +2142,10 @@ void mmd_export_token_html_raw(DString * out, const char * source, token * t, sc
 			print_const("&lt;");
 			break;
 
+		case BRACKET_ABBREVIATION_LEFT:
+			print_const("[&gt;");
+			break;
+
 		case CRITIC_COM_OPEN:
 			print_const("{&gt;&gt;");
 			break;
